@@ -32,7 +32,7 @@ package pogreb
 //@   ensures it != nil && fresh(it) && it.off == 512 + 512*int64(startBucketIdx) && it.f == idx.main && it.overflow == idx.overflow
 
 // every non-empty slot of an in-memory bucket designates a record inside an existing segment
-//@ spec func bucketInLog(b bucket, dl *datalog) bool = forall p int :: 0 <= p && p < 31 && b.slots[p].offset != 0 ==> slotInSeg(dl, b.slots[p])
+//@ spec func opaque bucketInLog(b bucket, dl *datalog) bool = forall p int :: 0 <= p && p < 31 && b.slots[p].offset != 0 ==> slotInSeg(dl, b.slots[p])
 
 //@ spec func bucketPtrInLog(b *bucket, dl *datalog) bool = forall p int :: 0 <= p && p < 31 && b.slots[p].offset != 0 ==> slotInSeg(dl, b.slots[p])
 
